@@ -125,6 +125,43 @@ theorem closeFn_arrayLeaf {r rest : List Tok} {t : PExp} (h : arrayLeaf r = .ok 
   all_goals first | (cases h; done) | skip
   all_goals grind
 
+theorem closeFn_graphEdges (f : Nat) (toks : List Tok) (acc es : List GEdge) (rest : List Tok)
+    (h : graphEdges f toks acc = some (es, rest)) : closeFn toks = closeFn rest := by
+  induction f generalizing toks acc es rest with
+  | zero => simp [graphEdges] at h
+  | succ f ih =>
+    simp only [graphEdges] at h
+    repeat' split at h
+    all_goals first | (cases h; done) | skip
+    all_goals grind
+
+theorem closeFn_graphNode {toks rest : List Tok} {n : GNode} (h : graphNode toks = some (n, rest)) : closeFn toks = closeFn rest := by
+  simp only [graphNode] at h
+  have := closeFn_graphEdges
+  repeat' split at h
+  all_goals first | (cases h; done) | skip
+  all_goals grind
+
+theorem closeFn_graphTail (f : Nat) (toks : List Tok) (acc ns : List GNode) (rest : List Tok)
+    (h : graphTail f toks acc = some (ns, rest)) : closeFn toks = closeFn rest := by
+  induction f generalizing toks acc ns rest with
+  | zero => simp [graphTail] at h
+  | succ f ih =>
+    simp only [graphTail] at h
+    have := @closeFn_graphNode
+    repeat' split at h
+    all_goals first | (cases h; done) | skip
+    all_goals grind
+
+theorem closeFn_graphLeaf {r rest : List Tok} {t : PExp} (h : graphLeaf r = some (t, rest)) : closeFn r = closeFn rest := by
+  simp only [graphLeaf, graphNodes] at h
+  have := closeFn_graphTail
+  have := @closeFn_graphNode
+  rw [← closeFn_skipNl r]
+  repeat' split at h
+  all_goals first | (cases h; done) | skip
+  all_goals grind
+
 '''
 out+="/-- a successful step does not change `closeFn` -/\ndef BalAt (f : Nat) : Prop :=\n    "+"\n    ∧ ".join(stmt(n,a,x,"f") for n,a,x in fns)+"\n\n"
 helpers='''  have hOU := closeFn_optUnary
@@ -133,6 +170,7 @@ helpers='''  have hOU := closeFn_optUnary
   have hTN := closeFn_tupleNames
   have hWL := @rest_wordLeaf
   have hAr := @closeFn_arrayLeaf
+  have hGr := @closeFn_graphLeaf
 '''
 for n,a,x in fns:
     out+=f"theorem bal_{n} (f : Nat) (ih : BalAt f) : {stmt(n,a,x,'(f+1)')[1:-1]} := by\n  obtain ⟨{names}⟩ := ih\n{helpers}  intro {a} {x} rest h\n  simp only [{n}] at h\n  repeat' split at h\n  all_goals first | (cases h; done) | skip\n  all_goals grind\n\n"
